@@ -119,6 +119,19 @@ def c15_queries(tier):
     K = 4 if tier == 'quick' else 6
     qs = [single_query('C15'), history_query('C15', K, covers=['end', 'two-validations', 'failed-setup-after-validation'], timeout=3000),
           tld_query('C15', 2, 63)]
+    N = 6 if tier == 'quick' else 9
+    for m, name, src, fn in MODES:
+        srcs = [src] + (['src/utf8_decode.c'] if m == 3 else [])
+        qs.append(Query('C15-codes-local-%s-N%d' % (name, N), 'a_local.c', repo=srcs,
+                        defs=D(VF_N=N, VF_CTX=1, VF_MODE=m, VF_CHECK_CODES=None), unwind=N + 4,
+                        covers=['end', 'code-too-many-dots', 'code-misplaced-dot', 'code-special', 'code-ctrl', 'code-misplaced-quote', 'code-unquoted'],
+                        bounds={'max_len': N, 'ctx_bytes': 1}, functions=[fn], timeout=3000))
+    Nd = 10 if tier == 'quick' else 13
+    qs.append(Query('C15-codes-domain-N%d' % Nd, 'a_domain.c', repo=['src/is_ascii_domain.c'], defs=D(VF_N=Nd, VF_CHECK_CODES=None),
+                    unwind=Nd + 3, covers=['end', 'code-delimiter', 'code-invalid-char', 'numeric', 'misplaced-hyphen'],
+                    bounds={'max_len': Nd}, functions=['is_ascii_domain'], timeout=3000))
+    Ne = 16 if tier == 'quick' else 40
+    qs += [email_query('C15', m, Ne, covers=['end', 'accepted-hostname', 'accepted-literal']) for m in range(4)]
     return qs
 
 
@@ -605,3 +618,84 @@ def find_query(name):
                 if q.name == name:
                     return q
     return None
+
+
+# ------------------------------------------------------------------ MANIFEST texts
+_BMC = ('bounded model checking of the real C translation units with CBMC 6.11 (goto-cc encode, SAT), property as assertions over '
+        'symbolic inputs, counterexamples replayed on a gcc+ASan/UBSan build')
+_T = {
+    'C01': ('For every address of <= 24 (quick) / 40 (thorough) arbitrary bytes, and for a structured family to 72/80 bytes crossing the 64-octet '
+            'boundary, in all four modes and both tld_check values, the solver shows that the real is_*_email code splits at the last "@", applies '
+            'the 64-octet rule, consults exactly this mode\'s validators on exactly the two halves and returns the documented function of their '
+            'answers - for ANY behaviour of the leaf validators (uninterpreted stubs); Layer C shows the mode set before eav_setup is the one applied. '
+            'Bounded exhaustive within the stated lengths, which sampling cannot give; what the leaves accept is C02-C05.',
+            _BMC + '; leaf validators as recording uninterpreted functions'),
+    'C02': ('Equivalence of the three real scanners with a reference grammar written from the property text, for every NUL-free string up to 7/10 '
+            'bytes over the full alphabet followed by 0-2 arbitrary bytes: a solver verdict over ~256^10 inputs per mode.',
+            _BMC + '; differential harness against a reference recogniser'),
+    'C03': ('The decoder is decided completely (all windows of 0-4 bytes, no bound left); the scanner is equivalent to Unicode Table 3-7 + the 5321 '
+            'grammar up to 7/10 bytes; 6531 == 5321 (same code) on pure ASCII up to 8/11 bytes; a.X.b accepted for every non-ASCII scalar value.',
+            _BMC + '; differential harness against a reference recogniser; product program of two scanners'),
+    'C04': ('Equivalence with the host-name reference on every string up to 11/14 bytes (default and underscore builds), plus a structured family '
+            'with symbolic total length, symbolic dot positions and arbitrary bytes at symbolic positions: every label length in every position to 72 '
+            'bytes and the 253/254 edge (quick), every shape with up to 5 labels to 262 bytes in one query (thorough).',
+            _BMC + ' (CaDiCaL for the structured family); differential harness against a reference recogniser'),
+    'C05': ('Sandwich RFC 5321 4.1.3 <= accepted <= RFC 4291 for the real is_ipv4 (12/16 bytes), is_ipv6 (10/13 bytes, 20 over the address alphabet; '
+            'nested is_ipv4 replaced by an uninterpreted verdict inside its own proved bounds) and dispatch-only is_ipaddr; bracket handling, tag and '
+            'family flag for every address up to 20/40 bytes with uninterpreted address validators.',
+            _BMC + '; two-sided reference recognisers; callee body replacement (assume-guarantee)'),
+    'C06': ('All pointer, bounds, overflow, shift, division, leak and unwinding obligations CBMC generates for every public entry point, with objects '
+            'sized so that a read before the first byte or after the terminator is out of bounds; abort()/assert() reachable = failure; uninitialised '
+            'eav_t fields by self-composition over two arbitrary memory images with branch-trace equality.',
+            _BMC + '; self-composition with goto-instrument --branch for uninitialised reads'),
+    'C07': ('The compiled 1591-row table equals the CSV-derived table (concrete, by CBMC); the real is_tld.c returns the class of the first row equal '
+            'to the whole label, case-insensitively, for every symbolic table of 3x3 / 5x5 rows and of 2-3 rows with names up to 63 bytes; the callers '
+            'look up exactly the text after the last dot, after the reserved check.',
+            _BMC + '; real lookup code against a symbolic table; table equality on concrete data'),
+    'C08': ('No bound on the policy layer: allow_tld and rfc are unconstrained 32-bit values, the callback result ranges over every documented code, '
+            'the eav_t starts from arbitrary bytes; Layer B shows what is (not) consulted with tld_check off and for literals.',
+            _BMC + '; callbacks as uninterpreted functions'),
+    'C09': ('Equivalence of the real is_special_domain with the reserved-name reference for every VALID host name without root dot up to 13/16 bytes '
+            '(and a prefix family to 80 bytes in the thorough tier).',
+            _BMC + '; differential harness against a reference recogniser'),
+    'C10': ('Under the converter contract K1-K3 the solver shows: is_utf8_domain depends on its input only through the converter answer; on every '
+            'all-ASCII address up to 9/12 bytes the four real email functions agree unless the converter failed, and then mode 6531 reports exactly '
+            'EEAV_IDN_ERROR; leaf validators case-insensitive. libidn2 itself is a binary: K2/K3 are validated on concrete data, not proved.',
+            _BMC + '; product program of the four modes; IDN converter as an uninterpreted function under a stated contract'),
+    'C11': ('Table side: CBMC proves the compiled src/auto_tld.c equal, row by row, to the table re-derived from data/punycode.csv on every run, and '
+            'that lookups return exactly the listed class. Generator side (concrete translation validation, not a solver verdict): the repository\'s '
+            'Perl generators are re-run on the shipped CSVs and their output compared with the shipped files.',
+            'CBMC on the compiled table vs. a CSV-derived expectation; re-run of the real generators with a Text::CSV stand-in'),
+    'C12': ('Product programs: the four real scanners return the same code on every quote-free ASCII string up to 8/11 bytes; 5321-accept implies '
+            '822-accept; the four real email functions on one address up to 9/12 bytes agree (6531 may only differ by an IDN error).',
+            _BMC + '; product programs, no reference model needed'),
+    'C13': ('Every program of 4/6 operations from the API alphabet with arbitrary settings: after each validation a fresh object with the confirmed '
+            'mode and the current settings agrees on return value, error code, message and result fields; nothing leaks after eav_free.',
+            _BMC + '; symbolic operation sequence, comparison with a fresh object; callbacks uninterpreted'),
+    'C14': ('Sequential reduction, each step decided: no function-local writable static in any library unit (symbol scan); for 16 entry points a '
+            'contract-enforced write set (goto-instrument --dfcc) on every input up to 4/7 bytes: any write to the caller\'s string, a file-scope '
+            'object or a foreign object fails. The step from "no shared writes, no shared mutable reads" to "no race under any schedule" is a stated '
+            'meta-argument; CBMC\'s own thread model was probed and found unsound for this code.',
+            'CBMC dynamic frame condition checking of assigns-contracts on the real code + static-state symbol scan'),
+    'C15': ('ret==1 iff errcode==0, errcode==-rc, message table, IDN message and invalid-RFC handling without bound (Layer C) and inside histories; '
+            'for every input up to 6/9 (local) and 10/13 (domain) bytes, whenever a validator returns code c the condition c names holds of the input.',
+            _BMC + '; per-code necessary conditions asserted on the real validators'),
+    'C16': ('Flag and result-code consistency and, with -DEAV_EXTRA, byte-exact lpart/domain for every address up to 20/40 bytes in all four modes, '
+            'for any leaf behaviour.', _BMC + '; leaf validators as recording uninterpreted functions'),
+    'C17': ('All option variants of the two affected units linked into one product harness under renamed symbols: each option changes exactly what it '
+            'documents on every string up to 7/9 (local) and 10/12 (domain) bytes; lexical side checks show no other unit can change.',
+            _BMC + '; product program over build variants; lexical pre-checks'),
+    'C18': ('The idn2, idn and idnkit source sets pass the same Layer B/C harnesses (same assertions, same converter stub) - hence identical decisions; '
+            'idnkit contexts are heap objects so leak / double destroy / use after destroy are memory failures, over every history of 4/6 operations.',
+            _BMC + '; the three backends against thin adapter headers and one converter stub'),
+    'C19': ('The converter returns any of the 2^32 codes with or without an output buffer: rejection with EEAV_IDN_ERROR, code and library message '
+            'reported, no validator consulted, no leak or double free; faults at symbolic positions in histories of 4/6 operations.',
+            _BMC + '; fault injection as an unconstrained return value of the converter stub'),
+    'C20': ('main/parse_file on every file of 3x3 / 4x5 lines x bytes with LF, CRLF or a missing final newline: one verdict per non-comment line, the '
+            'library sees exactly the trimmed line; the real sanitize_utf8 on every text up to 8/10 bytes against a buffer shrunk by the hook.',
+            _BMC + '; stdio and the libeav API as recording stubs'),
+}
+for _k, (_c, _t) in _T.items():
+    if _k in PROPS:
+        PROPS[_k]['claim'] = _c
+        PROPS[_k]['technique'] = _t
